@@ -113,7 +113,8 @@ type writerState struct {
 	closeReturned                   int
 	closeInvokedAt, closeReturnedAt time.Duration
 	raceClose                       bool
-	partsChanged                    bool // the scenario changed a topic's partition count during the run
+	stallMax                        time.Duration // goroutines may be descheduled for up to this long (0: never)
+	partsChanged                    bool          // the scenario changed a topic's partition count during the run
 	seenReq                         int
 	// per (topic,partition): applied request indexes in log order
 }
@@ -290,10 +291,12 @@ func (st *writerState) finalChecks() {
 		if c.afterClose && !errors.Is(c.err, io.ErrClosedPipe) && c.expectReject == "" {
 			s.Fail("C09", "R3-write-after-close", "WriteMessages invoked after Close returned gave %v, want io.ErrClosedPipe", c.err)
 		}
-		if c.cancelled && c.deadline > 0 && c.retAt > c.deadline+time.Millisecond {
+		// (a goroutine that may lose the CPU for a moment between any two steps
+		// is late by as much, a few times over)
+		if c.cancelled && c.deadline > 0 && c.retAt > c.deadline+time.Millisecond+4*st.stallMax {
 			s.Fail("C09", "R4-ctx-late", "WriteMessages a%d/c%d returned the context error at %v, %v after its context ended (%v)", c.actor, c.call, c.retAt, c.retAt-c.deadline, c.deadline)
 		}
-		if c.deadline > 0 && c.returned && c.err == nil && !st.async && c.retAt > c.deadline+time.Millisecond {
+		if c.deadline > 0 && c.returned && c.err == nil && !st.async && c.retAt > c.deadline+time.Millisecond+4*st.stallMax {
 			// returned success after the deadline: allowed (the batch completed), nothing to check
 		}
 		switch {
@@ -498,6 +501,7 @@ func writerScenario(s *Sim, params map[string]string) {
 	if st.raceClose && t.Intn("cfg", 2) == 0 {
 		// goroutines may lose the CPU for a moment between any two steps
 		s.EnableStalls(Pick(t, "cfg", 30, 150), 2*time.Millisecond)
+		st.stallMax = 2 * time.Millisecond
 	}
 	// faults
 	fmode := t.Intn("cfg", 6)
